@@ -675,7 +675,15 @@ impl<'p, 's, M: Matcher, W: WriteColor> Sink for SummarySink<'p, 's, M, W> {
             count
         };
         if is_multi_line {
-            self.match_count += sink_match_count;
+            // The lines reported by an inverted search contain no matches
+            // by definition, so count the lines themselves (as a line
+            // oriented search does). Otherwise a file with such lines is
+            // indistinguishable from a file without any results.
+            if searcher.invert_match() {
+                self.match_count += mat.lines().count() as u64;
+            } else {
+                self.match_count += sink_match_count;
+            }
         } else {
             self.match_count += 1;
         }
